@@ -47,6 +47,7 @@ const (
 	evClose // gzip.Writer.Close
 	evGzUse // any other method of the gzip writer
 	evPut
+	evGzWrite // (selected representation) the body written straight into the gzip-writer field
 )
 
 type c17site struct {
@@ -77,6 +78,12 @@ func newC17flow(k *c17kit) *c17flow {
 	// chosen before, `w := plain; if compress { w = gz }; grw.writer = w`), the point where the gzip writer is chosen
 	eachInstrOf(k.fns, func(_ *ssa.Function, i ssa.Instruction) {
 		st, ok := i.(*ssa.Store)
+		if ok && k.sel {
+			if k.isInstall(i) {
+				e.inst[i] = true
+			}
+			return
+		}
 		if !ok || !k.isW(st.Addr) {
 			return
 		}
@@ -124,9 +131,13 @@ func (e *c17flow) emit(c *Ctx) {
 
 // ---- landmarks by role ---------------------------------------------------------------------------------------------
 
-// isInstall: a store of a *gzip.Writer into the decided-writer field.
+// isInstall: a store of a *gzip.Writer into the decided-writer field; in the selected representation (c17_select.go)
+// a non-nil store into the gzip-writer field, whose nil-ness is what selects the destination of the body.
 func (k *c17kit) isInstall(i ssa.Instruction) bool {
 	st, ok := i.(*ssa.Store)
+	if ok && k.sel {
+		return k.isGz(st.Addr) && !isNilConst(st.Val)
+	}
 	if !ok || !k.isW(st.Addr) {
 		return false
 	}
@@ -145,7 +156,7 @@ func (k *c17kit) storesGzip(st *ssa.Store) bool {
 // isSend: the wrapped ResponseWriter's WriteHeader.
 func (k *c17kit) isSend(i ssa.Instruction) bool {
 	cc := callCommon(i)
-	return cc != nil && cc.IsInvoke() && cc.Method.Name() == "WriteHeader" && typeStr(cc.Value.Type()) == "net/http.ResponseWriter"
+	return cc != nil && cc.IsInvoke() && cc.Method.Name() == "WriteHeader" && c17typeStr(cc.Value.Type()) == "net/http.ResponseWriter"
 }
 
 func c17isPoolPut(i ssa.Instruction) bool {
@@ -220,6 +231,8 @@ func (e *c17flow) classify(i ssa.Instruction, deferred bool) c17event {
 		return evBadReset
 	case n == "(*compress/gzip.Writer).Close":
 		return evClose
+	case n == "(*compress/gzip.Writer).Write" && k.sel && len(cc.Args) == 2 && k.isGzLoad(cc.Args[0]):
+		return evGzWrite // the body written straight into the pooled writer: a use of the decided writer
 	case len(n) > len("(*compress/gzip.Writer).") && n[:len("(*compress/gzip.Writer).")] == "(*compress/gzip.Writer).":
 		return evGzUse
 	}
@@ -273,6 +286,9 @@ func (e *c17flow) step(i ssa.Instruction, s c17st, deferred bool) c17st {
 		s.closed = true
 	case evGzUse:
 		e.site("C17.T2", i, "no use after Put", c17dAfter, !s.put)
+	case evGzWrite:
+		e.site("C17.T2", i, "no use after Put", c17dAfter, !s.put)
+		e.site("C17.T2", i, "pooled writer Reset to the wrapped writer before use", c17dReset, !s.inst || s.reset)
 	case evPut:
 		e.site("C17.T2", i, "Close before Put", c17dClose, s.closed)
 		s.put = true
@@ -368,7 +384,7 @@ func (e *c17flow) run(fn *ssa.Function, in c17st, depth int) []c17st {
 				// `if gz != nil` in the method that finishes the stream and again in the method that recycles the writer: the
 				// two tests agree, a path that takes the nil arm of one and the non-nil arm of the other does not exist
 				if ft, ok := c17edgeFact(it.b, idx); ok {
-					if nn, isNil := nilFact(ft, e.k.isGzLoad); isNil {
+					if nn, isNil := e.k.gzFact(ft); isNil {
 						want := c17gzNil
 						if nn {
 							want = c17gzSet
@@ -648,7 +664,23 @@ func c17stKey(s c17st) int {
 // belongs to its package: only an interface of f's own package can have it) and the same parameters and results.
 // (c17closed asks gInvoked for the bare name, which makes `release` dynamic as soon as any interface anywhere in
 // the repository has a method of that name.)
+//
+// The interface the call goes through must also be one that the receiver type satisfies (a `Serve(h, r)` method is
+// not reached by calls through an interface whose other methods the response writer does not have) - unless some
+// struct type embeds the receiver type: then the outer type's method set decides, which is not looked at here.
 func (k *c17kit) invokable(f *ssa.Function) bool {
+	if v, ok := k.invok[f]; ok {
+		return v
+	}
+	if k.invok == nil {
+		k.invok = map[*ssa.Function]bool{}
+	}
+	var recv types.Type
+	if r := f.Signature.Recv(); r != nil {
+		if n := c17named(r.Type()); n != nil && !k.embedded(n) {
+			recv = types.NewPointer(n) // the method set of *T includes that of T
+		}
+	}
 	found := false
 	eachInstrOf(k.c.AllFns, func(_ *ssa.Function, i ssa.Instruction) {
 		cc := callCommon(i)
@@ -662,7 +694,57 @@ func (k *c17kit) invokable(f *ssa.Function) bool {
 		if !ok || !types.Identical(ms.Params(), f.Signature.Params()) || !types.Identical(ms.Results(), f.Signature.Results()) || ms.Variadic() != f.Signature.Variadic() {
 			return
 		}
+		if it, isI := cc.Value.Type().Underlying().(*types.Interface); isI && recv != nil && !types.Implements(recv, it) {
+			return
+		}
 		found = true
 	})
+	k.invok[f] = found
+	return found
+}
+
+// embedded: some struct type of the program embeds n (or *n): n's methods are then promoted into another method set.
+func (k *c17kit) embedded(n *types.Named) bool {
+	if v, ok := k.embeds[n]; ok {
+		return v
+	}
+	if k.embeds == nil {
+		k.embeds = map[*types.Named]bool{}
+	}
+	found := false
+	var visit func(t types.Type, d int)
+	visit = func(t types.Type, d int) {
+		if found || t == nil || d > 3 {
+			return
+		}
+		st, ok := t.Underlying().(*types.Struct)
+		if !ok {
+			return
+		}
+		for i := 0; i < st.NumFields(); i++ {
+			fl := st.Field(i)
+			if fl.Embedded() && c17named(fl.Type()) == n {
+				found = true
+			}
+			if _, anon := types.Unalias(fl.Type()).(*types.Struct); anon {
+				visit(fl.Type(), d+1)
+			}
+		}
+	}
+	for _, sp := range k.c.spkgs {
+		for _, m := range sp.Members {
+			if tm, ok := m.(*ssa.Type); ok {
+				visit(tm.Type(), 0)
+			}
+		}
+	}
+	eachInstrOf(k.c.AllFns, func(_ *ssa.Function, i ssa.Instruction) {
+		if a, ok := i.(*ssa.Alloc); ok { // struct types declared inside functions, anonymous structs
+			if p, isP := a.Type().Underlying().(*types.Pointer); isP {
+				visit(p.Elem(), 0)
+			}
+		}
+	})
+	k.embeds[n] = found
 	return found
 }
